@@ -3,6 +3,7 @@ import Usid.Driver.Process
 import Usid.Driver.Crash
 import Usid.Driver.Groups
 import Usid.Driver.Attrs
+import Usid.Driver.Dup
 /-! Line-protocol driver over the hand-written models: one JSON request per line on stdin,
     one JSON response per line on stdout. -/
 namespace Usid.Driver
@@ -14,7 +15,8 @@ def handlers : List (String × (Json → R Json)) := [
   ("proc.run", hProcRun),
   ("crash.wf", hCrashWf), ("crash.trace", hCrashTrace), ("crash.resume", hCrashResume),
   ("grp.run", hGrpRun),
-  ("attrs.match", hAttrsMatch)
+  ("attrs.match", hAttrsMatch),
+  ("dup.decide", hDupDecide)
 ]
 
 def respond (tbl : List (String × (Json → R Json))) (line : String) : String :=
